@@ -1,0 +1,10 @@
+//go:build verif
+
+package abi
+
+// Contracts checked by /verif (gvc). This file contains comments only and is compiled only with -tags verif.
+
+// Lookup of a method by its 4-byte selector: reads the ABI tables only.
+//@ func ABIContract.MethodById(abi, sigdata)
+//@   trusted
+//@   modifies nothing
